@@ -8,6 +8,7 @@ same runs and of the shipped tests / stub headers is validated against CondInclT
 import os, re, json, subprocess, random
 from ..common import MachineryError, REPO, NCPU
 from .. import build, tlc, run, condexpr
+from ._preproc import run_part as preproc_part
 
 SPELL = {
     "T": ["1", "2 > 1", "(1)", "!0", "1 || 0", "7"],
@@ -261,6 +262,8 @@ def run_check(ctx):
     n_ev = validate(ctx, traces, "replay batch") + validate(ctx, corpus, "corpus")
     ctx.notes["trace_events_validated"] = n_ev
     ctx.notes["corpus_files_traced"] = len(corpus)
+    # ---- the COMPOSED preprocessor (spec Preproc): conditionals x macros x includes x __LINE__ / __FILE__ ----
+    preproc_part(ctx, ctx.tmp)
 
 
 def corpus_traces(ctx, work):
